@@ -257,6 +257,12 @@ type opSpec struct {
 	// 3 "nil, no error"; tens: 1 = the callback cancels the caller's context when it is entered, 2 = just before
 	// it returns success
 	Faults []int `json:"f"`
+	// scheduled runs: Ab - the caller gives up (its context is cancelled by the scheduler) while the worker is parked in
+	// front of a store callback of this operation; Chain - the operation is issued by the goroutine of the previous
+	// job as soon as that one's call has returned (the same goroutine goes on to its next request)
+	Ab    bool `json:"ab,omitempty"`
+	Chain bool `json:"chain,omitempty"`
+	After int  `json:"after,omitempty"` // j+1: not to be called before job j has been called (0: no constraint)
 }
 
 func (o opSpec) cancels() bool {
